@@ -809,10 +809,19 @@ class Evaluator:
                 return
         # D.update({...}) / D.update(other) on a local dict: the dict value is rebuilt key by key
         if isinstance(c, ast.Call) and isinstance(c.func, ast.Attribute) and c.func.attr == "update" and \
-                isinstance(c.func.value, ast.Name) and len(c.args) == 1 and not c.keywords:
+                isinstance(c.func.value, ast.Name) and (
+                    (len(c.args) == 1 and not c.keywords) or
+                    (not c.args and c.keywords and all(k_.arg is not None for k_ in c.keywords))):
             cur = fr.lookup(c.func.value.id)
             if cur is not None and c.func.value.id in fr.env.vars:
-                arg = self.eval(fr, c.args[0])
+                if c.args:
+                    arg = self.eval(fr, c.args[0])
+                else:
+                    # D.update(a=x, b=y)  is  D.update({"a": x, "b": y})
+                    items_ = []
+                    for k_ in c.keywords:
+                        items_ += [const(k_.arg), self.eval(fr, k_.value)]
+                    arg = mk("dict", *items_)
                 if arg.op == "dict" and len(arg.args) % 2 == 0 and all(
                         arg.args[j].op == "const" for j in range(0, len(arg.args), 2)):
                     new = cur
@@ -1842,6 +1851,13 @@ class Evaluator:
                     r = self.inline_function(fr, f, callee, rc, args, kws, line)
                     if r is not None:
                         return r
+        if f.op in ("itemgetter", "attrgetter") and len(args) == 1 and not kws and args[0].op not in ("star",):
+            # itemgetter(k1, k2, ..)(obj) == (obj[k1], obj[k2], ..)   (a single key gives the bare item)
+            if f.op == "itemgetter":
+                vals = [getitem(args[0], k_) for k_ in f.args]
+            else:
+                vals = [self.attr(fr, args[0], k_.args[0]) for k_ in f.args]
+            return vals[0] if len(vals) == 1 else mk("tuple", *vals)
         if f.op == "partial":
             F_, b_, k_ = f.args
             given = {k.args[0] for k in kws if isinstance(k, T) and k.op == "kw"}
@@ -1862,6 +1878,9 @@ class Evaluator:
                 return mk("tuple" if f.args[0].endswith("tuple") else "list", *a0.args)
             if f.args[0] in ("builtins.tuple", "builtins.list") and _comp_range(a0) is not None:
                 return a0
+            if f.args[0] == "builtins.list" and a0.op == "binop" and a0.args[0] == "*" and any(
+                    isinstance(x, T) and x.op == "list" for x in a0.args[1:]):
+                return a0                                              # list([x] * n) is [x] * n
         t = call(f, *args, *kws)
         self.note_line(t, line)
         if t.op != "call":
@@ -1900,6 +1919,9 @@ class Evaluator:
             return None
         if any(isinstance(a, T) and a.op in ("star", "dstar") for a in args + kws):
             return None
+        if nm in ("operator.itemgetter", "operator.attrgetter") and args and not kws and all(
+                a.op == "const" for a in args):
+            return mk(nm.split(".")[1], *args)
         if nm.startswith("operator."):
             op = nm.split(".", 1)[1]
             if op in self._OPERATORS and len(args) == 2 and not kws:
@@ -1977,6 +1999,8 @@ class Evaluator:
             if len(combos) > 64:
                 return None
             return mk("list", *[mk("tuple", *c_) for c_ in combos])
+        if nm == "itertools.repeat" and len(args) == 2 and not kws:
+            return mk("binop", "*", mk("list", args[0]), args[1])      # repeat(x, n) holds what [x] * n holds
         if nm == "itertools.chain" and args and not kws:
             seqs = [self.static_elements(a) for a in args]
             if any(q is None for q in seqs):
